@@ -402,8 +402,8 @@ func ruleC10Initialised(p *Program, r *Run, isNodeStruct func(types.Type) bool) 
 	info := pkg.TypesInfo
 	spanT := p.spanType()
 	for _, fd := range AllFuncs(pkg) {
-		if !strings.HasSuffix(p.Fset.Position(fd.Pos()).Filename, "parser.go") {
-			continue
+		if p.isLexerFunc(fd) || p.IsGenerated(pkg, fd.Pos()) {
+			continue // the parser proper: everything in the package that is not part of the lexer
 		}
 		fn := FuncName(pkg, fd)
 		n := 0
